@@ -784,6 +784,12 @@ impl<'a> G<'a> {
                 self.text_line(0);
             }
             self.line(0, &format!("<- {t}"));
+            // sometimes a second thread right behind it: the first has finished (its choices are pending)
+            // while the host stops inside the second, or inside a thread the second forks in turn
+            if self.threads.len() >= 2 && self.rng.chance(1, 2) {
+                let t2 = self.rng.pick(&self.threads).clone();
+                self.line(0, &format!("<- {t2}"));
+            }
         }
         let n = 1 + self.rng.below(self.cfg.stmts.max(1));
         for _ in 0..n {
@@ -973,7 +979,7 @@ pub fn render(rng: &mut Rng, cfg: &GenCfg) -> String {
     for i in 0..nt {
         g.tunnels.push(format!("{}tun{i}", g.cfg.prefix));
     }
-    let nth = if g.cfg.threads { 1 + g.rng.below(2) } else { 0 };
+    let nth = if g.cfg.threads { 1 + g.rng.below(3) } else { 0 };
     for i in 0..nth {
         g.threads.push(format!("{}thr{i}", g.cfg.prefix));
     }
@@ -1086,6 +1092,20 @@ pub fn render(rng: &mut Rng, cfg: &GenCfg) -> String {
         // 0-3 lines of its own before the choices: the host can stop (save, evaluate a function,
         // switch flow, pause) while the story is in the middle of a forked thread
         let nl = g.rng.below(4);
+        // a thread may fork a later thread in turn (threads nested three deep while choices of
+        // threads that have already finished are pending)
+        if i + 1 < threads.len() && g.rng.chance(1, 3) {
+            let later = threads[i + 1 + g.rng.below(threads.len() - i - 1)].clone();
+            if g.rng.chance(1, 2) {
+                let m0 = g.m();
+                let tv = g.rng.range(1, 9);
+                g.line(0, &format!("~ temp tt{m0} = {tv}"));
+                g.line(0, &format!("<- {later}"));
+                g.line(0, &format!("{m0} after nested fork t={{tt{m0}}}"));
+            } else {
+                g.line(0, &format!("<- {later}"));
+            }
+        }
         for _ in 0..nl {
             if g.rng.chance(1, 4) {
                 g.assign(0);
@@ -1104,8 +1124,10 @@ pub fn render(rng: &mut Rng, cfg: &GenCfg) -> String {
             g.line(0, "");
             continue;
         }
+        // the choice runs on the thread that was forked for it: its body reads a temporary of that thread
+        g.line(0, &format!("~ temp tv{m} = {}", 10 + i));
         g.line(0, &format!("+ {m} thread choice"));
-        g.line(1, &format!("{m} thread body"));
+        g.line(1, &format!("{m} thread body tv={{tv{m}}}"));
         g.line(1, &format!("-> {target}"));
         if g.rng.chance(1, 2) {
             let m2 = g.m();
